@@ -2,6 +2,12 @@
 //
 // Operation lines (mode c20, stateful; `reset` creates five fresh pools with the New...Pool constructors):
 //
+//	spec <SYNC_COMMITTEE_SIZE> <MAX_VALIDATORS_PER_COMMITTEE> <SLOTS_PER_EPOCH> <MAX_ATTESTATIONS> <MAX_ATTESTER_SLASHINGS>
+//	     <MAX_PROPOSER_SLASHINGS> <MAX_VOLUNTARY_EXITS> <MAX_BLS_TO_EXECUTION_CHANGES>
+//	                                                              recreate the five pools with a copy of the minimal preset carrying
+//	                                                              these constants -> ok (bad-op when SYNC_COMMITTEE_SIZE > 4096 or
+//	                                                              MAX_VALIDATORS_PER_COMMITTEE is not in 1..1048576). What the pools
+//	                                                              do must not depend on the preset: the model ignores the values.
 //	att <slot> <index> <target> <tag> <bits> <sig> <committee>   AddAttestation        -> ok | err | panic
 //	search <slot|*> <index|*>                                     Search(WithSlot, WithCommittee) -> ok <n> item;item..  (sorted)
 //	prune <epoch>                                                 Prune                 -> ok
@@ -55,8 +61,23 @@ type world struct {
 	sync  *zpool.SyncCommitteePool
 }
 
-func newWorld() *world {
-	spec := configs.Minimal
+func newWorld() *world { return newWorldWith(configs.Minimal) }
+
+// customSpec is the minimal preset with the constants the pool package (or the types it stores) can read replaced.
+func customSpec(n []uint64) *common.Spec {
+	s := *configs.Minimal
+	s.SYNC_COMMITTEE_SIZE = view.Uint64View(n[0])
+	s.MAX_VALIDATORS_PER_COMMITTEE = view.Uint64View(n[1])
+	s.SLOTS_PER_EPOCH = common.Slot(n[2])
+	s.MAX_ATTESTATIONS = view.Uint64View(n[3])
+	s.MAX_ATTESTER_SLASHINGS = view.Uint64View(n[4])
+	s.MAX_PROPOSER_SLASHINGS = view.Uint64View(n[5])
+	s.MAX_VOLUNTARY_EXITS = view.Uint64View(n[6])
+	s.MAX_BLS_TO_EXECUTION_CHANGES = view.Uint64View(n[7])
+	return &s
+}
+
+func newWorldWith(spec *common.Spec) *world {
 	return &world{
 		att:   zpool.NewAttestationPool(spec),
 		asl:   zpool.NewAttesterSlashingPool(spec),
@@ -489,6 +510,15 @@ func exec(o hreg.Opts, sc *bufio.Scanner, w *bufio.Writer) error {
 			fmt.Fprintln(w, "bad-op")
 			continue
 		}
+		if f[0] == "spec" {
+			n, ok := nums(f[1:])
+			if len(f) != 9 || !ok || len(n) != 8 || n[0] > 4096 || n[1] < 1 || n[1] > 1048576 {
+				fmt.Fprintln(w, "bad-op")
+				continue
+			}
+			fmt.Fprintln(w, hreg.Guard(func() string { wd = newWorldWith(customSpec(n)); return "ok" }))
+			continue
+		}
 		fmt.Fprintln(w, hreg.Guard(func() string { return wd.step(f) }))
 	}
 	return sc.Err()
@@ -521,9 +551,9 @@ func commaList(l []uint64) string {
 
 type attLine struct {
 	slot, index, target, tag uint64
-	bits                      []byte
-	sig                       uint64
-	comm                      []uint64
+	bits                     []byte
+	sig                      uint64
+	comm                     []uint64
 }
 
 func (a attLine) String() string {
@@ -605,6 +635,19 @@ func gen(o hreg.Opts, w *bufio.Writer) error {
 			"select 1 1,2,3 1:1,3:1", "select 1 1,2,3 -", "select 1 - 1:1", "select 2 3,1,1 1:2,3:2,2:1", "select 1 5 5:1", "select 5 1 1:5,1:6", "select 6 1 1:5,1:6", "select 5 1,1,2 1:5,2:5,1:5",
 			"aslash 1 1", "aslash 1 1", "aslash 1 2", "aslashes", "pslash 4 1", "pslash 4 2", "pslash 5 1", "pslashes", "exit 3 9", "exit 3 10", "exit 4 9", "exits",
 			"aslashes", "pslashes", "exits",
+		},
+		{ // presets whose sync subcommittee (SYNC_COMMITTEE_SIZE/4) is not a whole number of bytes: 12, 4, 5, 1, 9 bits
+			"spec 48 2048 8 128 2 16 16 16", "scontrib 0 1 0 4108 1", "scontrib 0 1 0 0008 2", "scontrib 0 1 1 ff0f 3", "smsg 0 1 1", "sdump",
+			"sreset 0", "sdump", "scontrib 1 2 3 000f 4", "sdump",
+			"spec 16 7 6 1 1 1 1 1", "sdump", "scontrib 0 1 0 0d 1", "scontrib 0 1 2 08 2", "sdump",
+			"spec 20 9 32 7 3 5 4 2", "scontrib 0 1 0 1f 1", "scontrib 0 1 0 10 2", "sdump",
+			"spec 4 1 1 2 2 2 2 2", "scontrib 0 1 0 01 1", "sdump",
+			"spec 39 8 3 4 1 9 3 7", "scontrib 0 1 0 ff01 1", "scontrib 0 1 0 0001 1", "sdump",
+			"spec 0 1 8 128 2 16 16 16", "scontrib 0 1 0 - 1", "sdump",
+			"spec 512 2048 32 128 2 16 16 16", "scontrib 0 1 0 000000000000000000000000000000ff 1", "sdump",
+			"att 5 0 1 0 07 2 3,4", "att 5 0 1 0 03 2 3", "att 5 0 1 0 ff01 2 1,2,3,4,5,6,7,8", "att 5 1 1 0 ff03 2 1,2,3,4,5,6,7,8,9", "att 5 1 1 0 ff 2 1,2,3,4,5,6,7", "search * *",
+			"aslash 1 1", "aslashes", "spec 48 2048 8 128 2 16 16 16", "search * *", "aslashes",
+			"spec 4097 8 8 8 8 8 8 8", "spec 8 0 8 8 8 8 8 8", "spec 8 8 8", "spec 8 x 8 8 8 8 8 8", "spec 8 1048577 8 8 8 8 8 8",
 		},
 		{ // malformed lines
 			"att", "att 1 2 3", "att x 0 0 0 05 1 1,2", "att 1 0 0 0 zz 1 1,2", "att 1 0 0 0 05 1 1,,2", "search", "search 1", "prune", "prune x", "frob", "covers 05", "single 05",
@@ -698,6 +741,57 @@ func gen(o hreg.Opts, w *bufio.Writer) error {
 			}
 			comms[k] = c
 			return c
+		}
+		// the preset of this sequence: every constant the pool package can read takes several values; half of the
+		// sequences keep the minimal preset (no spec line)
+		subBits := 8 // SYNC_COMMITTEE_SIZE / SYNC_COMMITTEE_SUBNET_COUNT of the minimal preset
+		if rng.Intn(2) == 0 {
+			size := []uint64{16, 48, 20, 4, 5, 7, 32, 128, 512, 36, 100}[rng.Intn(11)]
+			if rng.Intn(4) == 0 {
+				size = uint64(4*rng.Intn(40) + rng.Intn(4))
+			}
+			mvpc := []uint64{1, 7, 8, 9, 2048, 5, 64}[rng.Intn(7)]
+			spe := []uint64{8, 32, 6, 1, 3}[rng.Intn(5)]
+			mx := func() uint64 { return []uint64{1, 2, 7, 16, 128}[rng.Intn(5)] }
+			emit("spec", fmt.Sprintf("spec %d %d %d %d %d %d %d %d", size, mvpc, spe, mx(), mx(), mx(), mx(), mx()))
+			subBits = int(size / 4)
+			st.Add("sync-subcommittee-bits", strconv.Itoa(subBits))
+			st.Add("preset-MAX_VALIDATORS_PER_COMMITTEE", strconv.FormatUint(mvpc, 10))
+			st.Add("preset-SLOTS_PER_EPOCH", strconv.FormatUint(spe, 10))
+		} else {
+			st.Add("sync-subcommittee-bits", "8 (minimal)")
+		}
+		// aggregation bits of a contribution: a bitvector of subBits bits; often only the last (partial) byte is used
+		contribBits := func() []byte {
+			n := (subBits + 7) / 8
+			b := make([]byte, n)
+			if n == 0 {
+				return b
+			}
+			lastMask := byte(0xff)
+			if subBits%8 != 0 {
+				lastMask = byte(1<<uint(subBits%8)) - 1
+			}
+			switch rng.Intn(4) {
+			case 0: // only the last byte
+				b[n-1] = byte(1+rng.Intn(255)) & lastMask
+				if b[n-1] == 0 {
+					b[n-1] = lastMask & -lastMask
+				}
+				st.Add("contrib-bits", "last-byte-only")
+			case 1: // only the top bit of the vector
+				b[n-1] = lastMask ^ (lastMask >> 1)
+				st.Add("contrib-bits", "top-bit-only")
+			default:
+				rng.Read(b)
+				b[n-1] &= lastMask
+				st.Add("contrib-bits", "random")
+			}
+			if rng.Intn(12) == 0 { // a length the preset does not call for (the pool does not validate it)
+				b = append(b, byte(rng.Intn(256)))
+				st.Add("contrib-bits", "over-long")
+			}
+			return b
 		}
 		var past []attLine
 		curSync := maxU
@@ -817,7 +911,7 @@ func gen(o hreg.Opts, w *bufio.Writer) error {
 				}
 				st.Add("sync-offset", offBucket(int64(slot-curSync)))
 				if rng.Intn(3) == 0 {
-					emit("scontrib", fmt.Sprintf("scontrib %d %d %d %s %d", slot, rng.Intn(3), rng.Intn(4), hexOf([]byte{byte(rng.Intn(256))}), rng.Intn(100)))
+					emit("scontrib", fmt.Sprintf("scontrib %d %d %d %s %d", slot, rng.Intn(3), rng.Intn(4), hexOf(contribBits()), rng.Intn(100)))
 				} else {
 					emit("smsg", fmt.Sprintf("smsg %d %d %d", slot, rng.Intn(6), rng.Intn(3)))
 				}
